@@ -43,6 +43,8 @@ def run(ctx):
         graphs, space = be.enumerate_dags(ctx, cfg)
         spaces.append(space)
         cases += be.dag_cases(ctx, graphs, disk_every=ctx.q(60, 400), gc_every=4, tagname=cfg)
+        if cfg == cfgs[0]:
+            acases = be.amp_cases(ctx, graphs, ctx.q(24, 240), ctx.q([130, 100, 300], [130, 100, 300, 700]))
     be.tag(cases, "main", "dag")
     ctx.cov["space"] = spaces
     ctx.cov["exhaustive"] = True
@@ -71,6 +73,23 @@ def run(ctx):
     res = ctx.replay_behaviours(binary, cases, args=["dag"], critical=critical, wrap=lambda c: c, env=ENV, timeout=ctx.q(3600, 30000),
                                 fingerprint=lambda c, r: "C18:" + str(r.get("fp")))
     be.check_inconclusive(res)
+    # amplified binding: the same expectations on deep histories (heights in the hundreds, multi-level closure trees)
+    for c in acases:
+        c["binding"]["fault"] = True     # fault action: one closure chunk of the second parent is unreadable while a merge is written
+    be.tag(acases, "main", "dag")
+    ares = ctx.replay_behaviours(binary, acases, args=["dag"], critical=critical, wrap=lambda c: c, env=ENV, timeout=ctx.q(3600, 30000),
+                                 fingerprint=lambda c, r: "C18:" + str(r.get("fp")))
+    th = {}
+    for r in ares:
+        for k, v in (r.get("closureTreeHeights") or {}).items():
+            th[k] = th.get(k, 0) + v
+    ctx.cov["amplified"] = {"cases": sum(1 for r in ares if r.get("ok")), "chain_lengths": sorted({r.get("amp") for r in ares if r.get("amp")}),
+                            "max_real_height": max([r.get("realMaxHeight", 0) for r in ares] or [0]), "closure_tree_heights": th}
+    ctx.cov["amplified"]["read_faults"] = {k: sum(r.get(k, 0) for r in ares) for k in ("faultTried", "faultHit", "faultCommitFailed")}
+    if not ctx.violations and ctx.cov["amplified"]["read_faults"]["faultHit"] == 0:
+        raise vlib.Inconclusive("no injected read fault was hit while a merge commit was written")
+    if not ctx.violations and (ctx.cov["amplified"]["max_real_height"] < 512 or "2" not in th):
+        raise vlib.Inconclusive("amplified cases did not reach heights >= 512 / two-level closure trees: %s" % ctx.cov["amplified"])
     ctx.cov["disk_cases"] = sum(1 for r in res if r.get("store") == "disk")
     ctx.cov["gc_rereads"] = sum(1 for r in res if r.get("gc"))
     ctx.cov["samples"] = [{"case": {"graph": be.short_graph(s["case"]["graph"]), "binding": s["case"]["binding"]}, "result": s["result"]}
